@@ -6,7 +6,8 @@ package main
 
 // k = length of the input file name (file names use safe characters so that
 // the native replay can create the file)
-func VC19Bin(k int) {
+// inplace = 1: the image is converted in place (-cim names the output file)
+func VC19Bin(k, inplace int) {
 	vCmdBegin("bin")
 	name := vStr("cim", k)
 	for i := 0; i < k; i++ {
@@ -18,8 +19,12 @@ func VC19Bin(k int) {
 	vAssume(vAnd(n >= 1, n <= 65536))
 	vAssume(int(off)+n-1 <= 0xffff)
 	img := vBytesN("img", n)
-	vCmdFile(name, img)
-	vCmdFlag("cim", name)
+	if inplace == 1 {
+		vCmdInPlace("cim", img)
+	} else {
+		vCmdFile(name, img)
+		vCmdFlag("cim", name)
+	}
 	vCmdFlagUint("off", uint(off))
 	err := run()
 	vAssert("no-error", err == nil)
